@@ -196,7 +196,7 @@ type Variant struct {
 
 var (
 	VAsan = Variant{Name: "asan", CC: "gcc", GenVar: "plain",
-		CFlags: []string{"-O1", "-g", "-fno-omit-frame-pointer", "-fsanitize=address,undefined", "-fno-sanitize-recover=all"},
+		CFlags: []string{"-O1", "-g", "-fno-omit-frame-pointer", "-fsanitize=address,undefined", "-fno-sanitize=nonnull-attribute,returns-nonnull-attribute", "-fno-sanitize-recover=all"},
 		LFlags: []string{"-fsanitize=address,undefined"}}
 	VPlain = Variant{Name: "plain", CC: "gcc", GenVar: "plain",
 		CFlags: []string{"-O2", "-DWDRIVE_WRAP_ALLOC"},
@@ -205,13 +205,14 @@ var (
 		CFlags: []string{"-O2", "-DWUFFS_CONFIG__AVOID_CPU_ARCH", "-DWDRIVE_WRAP_ALLOC"},
 		LFlags: []string{"-Wl,--wrap=malloc", "-Wl,--wrap=calloc", "-Wl,--wrap=realloc", "-Wl,--wrap=free"}}
 	VAsanNoSimd = Variant{Name: "asan-nosimd", CC: "gcc", GenVar: "plain",
-		CFlags: []string{"-O1", "-g", "-fno-omit-frame-pointer", "-fsanitize=address,undefined", "-fno-sanitize-recover=all", "-DWUFFS_CONFIG__AVOID_CPU_ARCH"},
+		CFlags: []string{"-O1", "-g", "-fno-omit-frame-pointer", "-fsanitize=address,undefined", "-fno-sanitize=nonnull-attribute,returns-nonnull-attribute", "-fno-sanitize-recover=all", "-DWUFFS_CONFIG__AVOID_CPU_ARCH"},
 		LFlags: []string{"-fsanitize=address,undefined"}}
 )
 
 // BuildWdrive compiles (or finds cached) the driver for a variant.
 func BuildWdrive(r *drv.Run, s *Std, v Variant) (string, error) {
-	vdir := filepath.Join(s.Dir, "bin-"+v.Name)
+	fh := sha256.Sum256([]byte(strings.Join(v.CFlags, " ") + "|" + strings.Join(v.LFlags, " ")))
+	vdir := filepath.Join(s.Dir, "bin-"+v.Name+"-"+hex.EncodeToString(fh[:4]))
 	bin := filepath.Join(vdir, "wdrive")
 	err := withLock(vdir, func() error {
 		if _, err := os.Stat(filepath.Join(vdir, "ok")); err == nil {
